@@ -11,6 +11,7 @@ import (
 	"zogverif/internal/core"
 	"zogverif/internal/gen"
 	"zogverif/internal/obs"
+	"zogverif/internal/ref"
 )
 
 // Schemas the spec AST cannot express (custom schemas over arrays, interfaces, maps, structs with interface fields; membership
@@ -54,6 +55,15 @@ func mkDirect[T any](name string, mk func() z.ZogSchema, own ...any) c06direct {
 
 func yes[T any]() z.ZogSchema { return z.CustomFunc[T](func(*T, z.Ctx) bool { return true }) }
 
+// URL-looking strings of every shape (the labelled pool of the reference plus degenerate authorities)
+var c06URLs = func() []any {
+	var out []any
+	for _, k := range ref.URLPoolKeys() {
+		out = append(out, k)
+	}
+	return append(out, "http://:", "http://@", "http://[", "http://]", "http://[::1", "http://a:b:c", "http://%41", "x://", "x:", ":", "#", "?", "http://h:99999999999", "http://\x00", "http://[fe80::1%25en0]/")
+}()
+
 var c06Directs = func() []c06direct {
 	p1 := c06Payload{Name: "a", Data: []any{1}}
 	pm := c06Payload{Name: "m", Data: map[string]any{"k": 1}}
@@ -86,6 +96,9 @@ var c06Directs = func() []c06direct {
 		mkDirect[string]("String.OneOf", func() z.ZogSchema { return z.String().OneOf([]string{"a", "b"}) }, "a", "c"),
 		mkDirect[float64]("Float64.OneOf(NaN)", func() z.ZogSchema { return z.Float64().OneOf([]float64{math.NaN(), 1}) }, math.NaN(), "NaN", 1),
 		mkDirect[time.Time]("Time.EQ", func() z.ZogSchema { return z.Time().EQ(t) }, t, t.Unix(), "x"),
+		mkDirect[string]("String.URL", func() z.ZogSchema { return z.String().URL() }, c06URLs...),
+		mkDirect[string]("String.Not().URL", func() z.ZogSchema { return z.String().Not().URL() }, c06URLs...),
+		mkDirect[string]("String.Email.UUID.Match", func() z.ZogSchema { return z.String().Email().UUID().HasPrefix("x").ContainsSpecial() }, "a@b.co", "\xff@\xfe", "ma\u017fter@doe.com"),
 	}
 }()
 
